@@ -129,6 +129,21 @@ theorem toH5_date_supplied (c : Utf8) (dc : DateC δ) (t : Src α) (genBy : Stri
     (csr csc : CS α) :
     toH5 c dc t genBy (some d) now csr csc = toH5 c dc t genBy (some d) now' csr csc := rfl
 
+/-- Header fields: `generated-by` and `creation-date` come from the ARGUMENTS of `to_hdf5`; whatever
+`generated_by` / `create_date` the table object itself carries does not reach the file. -/
+theorem toH5_ignores_own_header (c : Utf8) (dc : DateC δ) (t : Src α) (g d : Option String) (genBy : String)
+    (date : Option δ) (now : δ) (csr csc : CS α) :
+    toH5 c dc { t with ownGeneratedBy := g, ownCreateDate := d } genBy date now csr csc =
+      toH5 c dc t genBy date now csr csc := rfl
+
+theorem written_header (c : Utf8) (dc : DateC δ) (t : Src α) (genBy : String) (date : Option δ) (now : δ)
+    (csr csc : CS α) :
+    attrStr (written c dc t genBy date now csr csc) "generated-by" = .ok genBy ∧
+    attrStr (written c dc t genBy date now csr csc) "creation-date" = .ok (dc.iso (date.getD now)) ∧
+    attrStr (written c dc t genBy date now csr csc) "id" = .ok (idAttr t.tableId) ∧
+    attrStr (written c dc t genBy date now csr csc) "type" = .ok (typeAttr t.ttype) := by
+  simp [attrStr, written, attrTree, List.lookup]
+
 /-! Non-vacuity: a concrete 2 x 3 table with text, numeric and hierarchical metadata, a category
 name with '/', unsorted indices in the row view — the hypotheses hold and so does the property. -/
 
